@@ -934,6 +934,65 @@ fn build_world(sc: &SimScenario) -> (World, Vec<(u64, Vec<u8>)>) {
                 }
             }
         }
+        // realistic first instructions (what the entry holds must not matter to the injector):
+        // landing pads, pointer-authentication and frame set-up, import stubs, far thunks
+        let fwd_targets: Vec<usize> = sc.forwarders.iter().map(|(ti, _)| *ti).collect();
+        for (ti, ta) in sc.targets.iter().enumerate() {
+            let e = *ta & !1;
+            if fwd_targets.contains(&ti) || e < t.addr || e + sc.pitch > t.addr + len {
+                continue;
+            }
+            let off = (e - t.addr) as usize;
+            let mut x = t.fill_seed ^ e.wrapping_mul(0x9E37_79B9_7F4A_7C15);
+            let sel = simos::rng::splitmix64(&mut x) % 8;
+            match arch {
+                Arch::A64 => {
+                    let w0: Option<u32> = match sel {
+                        0 => Some(0xd503245f), // bti c
+                        1 => Some(0xd50324df), // bti jc
+                        2 => Some(0xd503233f), // paciasp
+                        3 => Some(0xa9bf7bfd), // stp x29, x30, [sp, #-16]!
+                        _ => None,
+                    };
+                    if let Some(v) = w0 {
+                        data[off..off + 4].copy_from_slice(&v.to_le_bytes());
+                    }
+                }
+                Arch::X86_64 => match sel {
+                    0 if sc.pitch >= 8 => data[off..off + 4].copy_from_slice(&[0xF3, 0x0F, 0x1E, 0xFA]), // endbr64
+                    1 if sc.pitch >= 16 && !sc.bystanders.is_empty() => {
+                        // import stub: jmp *0(%rip); .quad <another function of the image>
+                        data[off..off + 6].copy_from_slice(&[0xFF, 0x25, 0, 0, 0, 0]);
+                        let b = sc.bystanders[ti % sc.bystanders.len()];
+                        data[off + 6..off + 14].copy_from_slice(&b.to_le_bytes());
+                    }
+                    _ => {}
+                },
+                Arch::Arm => {
+                    // a lone far branch (linker veneer / thunk) 8-16 MiB away, in either state
+                    let d: i64 = (0x80_0000 + (x % 0x7F_0000) as i64 & !3) * if sel & 1 == 0 { 1 } else { -1 };
+                    if sel < 2 && *ta & 1 == 1 {
+                        // T32 B.W (encoding T4), pc = entry + 4
+                        let o = d;
+                        let sbit = ((o >> 24) & 1) as u32;
+                        let i1 = ((o >> 23) & 1) as u32;
+                        let i2 = ((o >> 22) & 1) as u32;
+                        let imm10 = ((o >> 12) & 0x3FF) as u32;
+                        let imm11 = ((o >> 1) & 0x7FF) as u32;
+                        let j1 = (!(i1 ^ sbit)) & 1;
+                        let j2 = (!(i2 ^ sbit)) & 1;
+                        let hw1 = (0b11110 << 11) | (sbit << 10) | imm10;
+                        let hw2 = (0b10 << 14) | (j1 << 13) | (1 << 12) | (j2 << 11) | imm11;
+                        data[off..off + 2].copy_from_slice(&(hw1 as u16).to_le_bytes());
+                        data[off + 2..off + 4].copy_from_slice(&(hw2 as u16).to_le_bytes());
+                    } else if sel < 2 {
+                        // A32 B, pc = entry + 8
+                        let imm24 = (((d - 8) >> 2) as u32) & 0x00FF_FFFF;
+                        data[off..off + 4].copy_from_slice(&(0xEA00_0000u32 | imm24).to_le_bytes());
+                    }
+                }
+            }
+        }
         pristine.push((t.addr, data.clone()));
         w.map_fixed(t.addr, len, PROT_R | PROT_X, Owner::Text, Some(data));
     }
